@@ -9,10 +9,13 @@ import Blue.Proofs.SkipRuns
 import Blue.Proofs.SkipIterate
 import Blue.Proofs.SkipOwn
 import Blue.Proofs.ConstsTieC17
+import Blue.Proofs.SkipProgress
+import Blue.Proofs.SkipProgressIns
+import Blue.Proofs.ListFreeProgress
 /-! # Property C17 — the lock-free skiplist loses no insert and always iterates in order; an
     iterator remains valid for as long as it is held; the same for the prepend-only list
 
-Property theorems only (helper lemmas live in `Blue/Proofs/{SkipChain,SkipList,SkipIter,SkipML*,ListFree}.lean`).
+Property theorems only (helper lemmas live in `Blue/Proofs/{SkipChain,SkipList,SkipIter,SkipML*,SkipProgress*,ListFree}.lean`).
 
 * `Blue.SkipML` — `skipfree::SkipList` with all its levels and its iterator: one step per atomic
   access (`get_next`, `set_next`, `cas_next`) of `insert` (search with recorded predecessors and
@@ -25,6 +28,18 @@ Property theorems only (helper lemmas live in `Blue/Proofs/{SkipChain,SkipList,S
 * `Blue.SkipOwn` — who keeps the nodes alive, as a transition system (reference count, released set,
   ghost use-after-free flag; the repaired ownership, finding D-4); `Blue.SkipLife` is the
   definitional form of it that the check replays (`life_refines`).
+
+* Progress (block `SkipProgress`; `Blue/Proofs/SkipProgress.lean`, `SkipProgressIns.lean`): over runs
+  (lists of thread ids, one atomic access each) of `Blue.SkipML` from any `Reach` state - a search
+  or an insert that runs alone finishes within an explicit measure of the state
+  (`search_terminates_without_interference`, `operation_terminates_without_interference`); an
+  operation that takes more own steps than that without finishing was overtaken by a successful
+  CAS of another thread (`lock_freedom`, all levels; `search_lock_freedom`: for a search, by a
+  level-0 CAS); explicit step bounds per successful CAS of others (`all_operations_finish`,
+  `all_searches_finish`); a failed CAS is the trace of another thread's successful CAS at the
+  same level on the same predecessor (`cas_failure_means_progress`).  Lock-freedom, not
+  wait-freedom: no bound without counting the other threads' CASes.  Fair scheduling is not
+  modelled (the theorems bound a thread's own steps).  The same for `Blue.ListFree` (`prepend_*`, `all_prepends_finish`; `Blue/Proofs/ListFreeProgress.lean`).
 
 **Assumed, not proved**: the atomic accesses of different threads interleave sequentially
 consistently (the code uses `Acquire`/`Release`/`SeqCst`; weak memory is outside the model), and
@@ -419,6 +434,226 @@ example : ([Op.insert, .insert, .iter, .dropList, .use 0, .dropIter 0].foldl
   decide
 end life
 
+-- BEGIN SkipProgress
+/-! ## progress: searches terminate; a search is delayed only by an insert that takes effect; a
+    failed CAS is the trace of another thread's successful CAS (`Blue/Proofs/SkipProgress.lean`) -/
+section progress
+open Blue.SkipML Blue.SkipProgress
+
+/-- a search (seek, contains, prev, the load of next, or the search of an insert, by any thread,
+    for any key, from any reachable state) that runs alone reaches its last load within
+    `searchBound s t` own steps: the allocated nodes with a linked key between the node it stands
+    on and its target, plus one, plus its level times (the nodes with a linked key, plus one) -/
+theorem search_terminates_without_interference {s : St} (h : Reach s) (t : Nat) :
+    ∃ m, m ≤ searchBound s t ∧ searching (th (run s (List.replicate m t)) t).pc = false :=
+  Blue.SkipProgress.search_terminates_without_interference h t
+
+/-- lock-freedom of the searches, in its sharp form (`searching` covers `find_greater_or_equal`,
+    `find_less_than`, `find_last`, `next` and the search phase of `insert`; `lock_freedom` below
+    covers every operation).  In every run (list of thread ids, one atomic access each) from a
+    reachable state: if thread `t` is searching in every state of the run and has taken more than
+    `searchBound s t` steps, some other thread's LEVEL-0 CAS succeeded during the run (an insert
+    took effect; CASes on upper levels do not delay a search beyond its bound). -/
+theorem search_lock_freedom {s : St} (h : Reach s) (t : Nat) (r : List Nat)
+    (hbusy : searchingAlong t s r = true) (hsteps : searchBound s t < r.count t) :
+    ∃ r1 j r2, r = r1 ++ j :: r2 ∧ j ≠ t ∧ succCasAt (run s r1) j = some 0 :=
+  Blue.SkipProgress.search_lock_freedom h t r hbusy hsteps
+
+/-- every search finishes: a search that
+    has not reached its last load has taken at most `MAX_HEIGHT * (nodes + 1)` own steps, times one
+    plus the number of inserts of other threads that took effect during the run (`nodes` = nodes
+    allocated at the end of the run, head included: at most one per insert begun) -/
+theorem all_searches_finish {s : St} (h : Reach s) (t : Nat) (r : List Nat)
+    (hbusy : searchingAlong t s r = true) :
+    r.count t ≤ s.H * ((run s r).heap.length + 1) * (insertsByOthers t s r + 1) :=
+  Blue.SkipProgress.all_searches_finish h t r hbusy
+
+/-- a failed CAS means progress of another thread: `t` has loaded `prev[idx].next[idx] = obs[idx]`
+    and is at `set_next` / `cas_next` with these values during the whole run; if at the end the
+    predecessor's pointer differs from what it loaded (its CAS fails, `cas_fails_iff`), a step of
+    the run by another thread was a successful CAS at level `idx` on the same predecessor -/
+theorem cas_failure_means_progress {s : St} (h : Reach s) (t nd k idx hh : Nat) (prev : List Nat)
+    (obs : List (Option Nat)) (r : List Nat)
+    (hwait : along step (casWait t nd k idx hh prev obs) s r) (hfresh : freshAt s idx prev obs)
+    (hfail : ¬ freshAt (run s r) idx prev obs) :
+    ∃ r1 i r2, r = r1 ++ i :: r2 ∧ i ≠ t ∧ casOn (run s r1) i idx (prev.getD idx 0) :=
+  Blue.SkipProgress.cas_failure_means_progress h t nd k idx hh prev obs r hwait hfresh hfail
+
+/-- the CAS of a thread at `cas_next` fails exactly when the pointer is no longer what it loaded;
+    and the load that ends the re-advance loop leaves it fresh (where the interval of
+    `cas_failure_means_progress` begins) -/
+theorem cas_fails_iff (s : St) (t nd k idx hh : Nat) (prev : List Nat) (obs : List (Option Nat))
+    (hpc : (th s t).pc = .cas nd k idx hh prev obs) :
+    access s t = some (.cas (prev.getD idx 0) idx (obs.getD idx none) nd false) ↔ ¬ freshAt s idx prev obs :=
+  Blue.SkipProgress.cas_fails_iff s t nd k idx hh prev obs hpc
+
+theorem adv_load_fresh {s : St} (h : Reach s) (t nd k idx hh : Nat) (prev prev' : List Nat) (obs obs' : List (Option Nat))
+    (hpc : (th s t).pc = .adv nd k idx hh prev obs)
+    (hpc' : (th (step s t) t).pc = .setNext nd k idx hh prev' obs') : freshAt (step s t) idx prev' obs' :=
+  Blue.SkipProgress.adv_load_fresh h t nd k idx hh prev prev' obs obs' hpc hpc'
+
+/-- non-vacuity of the search theorems (`MAX_HEIGHT = 2`): thread 2 seeks 9 in the empty list
+    (bound 2) and takes its first load; threads 1 and 0 then insert 3 and 5 (two level-0 CASes
+    succeed); the seek's next two loads move it to 3 and to 5 and it is still searching: 3 own
+    steps > 2, as `search_lock_freedom` allows only because inserts took effect; the bound of
+    `all_searches_finish` is 2 * (3 + 1) * (2 + 1).  Alone, it ends with one more load. -/
+def pS0 : St := callSeek (callInsert (callInsert (init 2 3) 0 5 1) 1 3 1) 2 9
+theorem pS0_reach : Reach pS0 :=
+  .seek 2 9 (.insert 1 3 1 (.insert 0 5 1 (.init 2 3 (by decide)) (insertOk_sound (by decide)))
+    (insertOk_sound (by decide)))
+def pRun : List Nat := [2, 1, 1, 1, 1, 1, 0, 0, 0, 0, 0, 0, 2, 2]
+
+example :
+    searchBound pS0 2 = 2 ∧ searchingAlong 2 pS0 pRun = true ∧ pRun.count 2 = 3 ∧
+      insertsByOthers 2 pS0 pRun = 2 ∧ (run pS0 pRun).inserted = [5, 3] ∧ (run pS0 pRun).returned = [5, 3] ∧
+      (run pS0 pRun).H * ((run pS0 pRun).heap.length + 1) * (insertsByOthers 2 pS0 pRun + 1) = 24 ∧
+      searchBound (run pS0 pRun) 2 = 1 ∧
+      searching (th (run (run pS0 pRun) (List.replicate 1 2)) 2).pc = false ∧
+      ((th (run (run pS0 pRun) [2]) 2).pos) = none := by
+  decide
+
+example : ∃ r1 j r2, pRun = r1 ++ j :: r2 ∧ j ≠ 2 ∧ succCasAt (run pS0 r1) j = some 0 :=
+  search_lock_freedom pS0_reach 2 pRun (by decide) (by decide)
+
+/-- non-vacuity of `cas_failure_means_progress`: two threads insert the adjacent keys 5 and 3 into
+    the empty list (the run of the example above).  Thread 0 has loaded `head.next[0] = null` and
+    allocated node 1 (`cS`: it is at `set_next`, the pointer is fresh); it stores, thread 1 searches,
+    allocates node 2, stores and its CAS on the head succeeds; thread 0's CAS then fails (once),
+    it re-advances past 3, and both inserts return. -/
+def cS : St := [0, 0, 0].foldl step wS0
+theorem cS_reach : Reach cS := reach_steps wS0_reach [0, 0, 0]
+def cRun : List Nat := [0, 1, 1, 1, 1, 1]
+
+example :
+    along step (casWait 0 1 5 0 2 [0, 0] [none, none]) cS cRun ∧ freshAt cS 0 [0, 0] [none, none] ∧
+      ¬ freshAt (run cS cRun) 0 [0, 0] [none, none] ∧
+      access (run cS cRun) 0 = some (.cas 0 0 none 1 false) ∧
+      access (run cS [0, 1, 1, 1, 1]) 1 = some (.cas 0 0 none 2 true) ∧
+      (run cS (cRun ++ [0, 0, 0, 0, 0, 0, 0, 0])).returned = [5, 3] := by
+  decide
+
+example : ∃ r1 i r2, cRun = r1 ++ i :: r2 ∧ i ≠ 0 ∧ casOn (run cS r1) i 0 0 :=
+  cas_failure_means_progress cS_reach 0 1 5 0 2 [0, 0] [none, none] cRun (by decide) (by decide) (by decide)
+
+/-! ### every operation, the CAS loops of `insert` included (`Blue/Proofs/SkipProgressIns.lean`) -/
+
+/-- an operation (insert: search, allocation, per level store / CAS / re-advance; or any search)
+    that runs alone finishes within `opBound s t` own steps: for a search its `searchBound`; for an
+    insert in its search that plus one plus `height * (linked nodes + 5)`; from the allocation on,
+    per level still to link, 2 if the predecessor's pointer is still the recorded one and else 5
+    plus the linked keys between the predecessor and the key (failed CAS, re-advance, second try) -/
+theorem operation_terminates_without_interference {s : St} (h : Reach s) (t : Nat) :
+    ∃ m, m ≤ opBound s t ∧ pending (th (run s (List.replicate m t)) t).pc = false :=
+  Blue.SkipProgress.operation_terminates_without_interference h t
+
+/-- **lock-freedom** (all levels, every operation): in every run from a reachable state, if thread
+    `t` has a pending operation in every state of the run and has taken more than `opBound s t`
+    steps, a step of the run by ANOTHER thread was a successful CAS (it linked a node at some
+    level): an operation is delayed only by the progress of another -/
+theorem lock_freedom {s : St} (h : Reach s) (t : Nat) (r : List Nat)
+    (hbusy : pendingAlong t s r = true) (hsteps : opBound s t < r.count t) :
+    ∃ r1 j r2, r = r1 ++ j :: r2 ∧ j ≠ t ∧ (succCasAt (run s r1) j).isSome = true :=
+  Blue.SkipProgress.lock_freedom h t r hbusy hsteps
+
+/-- every operation finishes: an operation still pending at the end of a run has taken at most
+    `opB MAX_HEIGHT nodes = MAX_HEIGHT * (nodes + 1) + 1 + MAX_HEIGHT * (nodes + 5)` own steps, times
+    one plus the number of successful CASes of other threads in the run (`nodes`: allocated at the
+    end of the run, head included).  An insert makes at most `MAX_HEIGHT` successful CASes and one
+    node, so in a workload of `N` inserts an operation that keeps being scheduled finishes within
+    `opB MAX_HEIGHT (N + 1) * (MAX_HEIGHT * N + 1)` own steps (this last product is arithmetic on
+    the two counts, not a stated theorem). -/
+theorem all_operations_finish {s : St} (h : Reach s) (t : Nat) (r : List Nat)
+    (hbusy : pendingAlong t s r = true) :
+    r.count t ≤ opB s.H (run s r).heap.length * (casesByOthers t s r + 1) :=
+  Blue.SkipProgress.all_operations_finish h t r hbusy
+
+/-- non-vacuity: two threads insert the adjacent keys 5 (tower of 2) and 3 into the empty list
+    (`MAX_HEIGHT = 2`).  In `qS` thread 0 stands before its level-0 CAS with both recorded pointers
+    still fresh: `opBound = 3` (CAS, store, CAS).  Thread 1 then inserts 3 (its CAS on the head
+    succeeds), so thread 0's CAS fails once, it re-advances past 3 and stores again: 4 own steps
+    > 3 and still pending, which `lock_freedom` allows only because of thread 1's CAS; the bound of
+    `all_operations_finish` is `opB 2 3 * (1 + 1) = 50`.  Three more steps and both have returned. -/
+def qS : St := [0, 0, 0, 0].foldl step (callInsert (callInsert (init 2 2) 0 5 2) 1 3 1)
+theorem qS_reach : Reach qS :=
+  reach_steps (.insert 1 3 1 (.insert 0 5 2 (.init 2 2 (by decide)) (insertOk_sound (by decide)))
+    (insertOk_sound (by decide))) [0, 0, 0, 0]
+def qRun : List Nat := [1, 1, 1, 1, 1, 0, 0, 0, 0]
+
+example :
+    opBound qS 0 = 3 ∧ pendingAlong 0 qS qRun = true ∧ qRun.count 0 = 4 ∧ casesByOthers 0 qS qRun = 1 ∧
+      opB (qS).H (run qS qRun).heap.length * (casesByOthers 0 qS qRun + 1) = 50 ∧
+      access (run qS [1, 1, 1, 1, 1]) 0 = some (.cas 0 0 none 1 false) ∧
+      opBound (run qS qRun) 0 = 3 ∧
+      (run qS (qRun ++ [0, 0, 0])).returned = [5, 3] ∧ (run qS (qRun ++ [0, 0, 0])).inserted = [5, 3] ∧
+      pending (th (run (run qS qRun) (List.replicate 3 0)) 0).pc = false := by
+  decide
+
+example : ∃ r1 j r2, qRun = r1 ++ j :: r2 ∧ j ≠ 0 ∧ (succCasAt (run qS r1) j).isSome = true :=
+  lock_freedom qS_reach 0 qRun (by decide) (by decide)
+
+example : qRun.count 0 ≤ opB qS.H (run qS qRun).heap.length * (casesByOthers 0 qS qRun + 1) :=
+  all_operations_finish qS_reach 0 qRun (by decide)
+
+end progress
+
+/-! ### the prepend-only list (`Blue/Proofs/ListFreeProgress.lean`) -/
+section listprogress
+open Blue.ListFree
+
+/-- a prepend that runs alone finishes within `prependBound s t ≤ 5` own steps (from its beginning
+    4: allocation, load of the head, store, CAS) -/
+theorem prepend_terminates_without_interference {D : Type} {s : Blue.ListFree.St D} (h : Inv s) (t : Nat) :
+    ∃ m, m ≤ prependBound s t ∧ Blue.ListFree.pending ((Blue.ListFree.run s (List.replicate m t)).pcs t) = false :=
+  Blue.ListFree.prepend_terminates_without_interference h t
+
+/-- lock-freedom of `prepend`: more own steps than `prependBound` while pending means another
+    thread's CAS on the head succeeded during the run -/
+theorem prepend_lock_freedom {D : Type} {s : Blue.ListFree.St D} (h : Inv s) (t : Nat) (r : List Nat)
+    (hbusy : Blue.ListFree.pendingAlong t s r = true) (hsteps : prependBound s t < r.count t) :
+    ∃ r1 j r2, r = r1 ++ j :: r2 ∧ j ≠ t ∧ headCas (Blue.ListFree.run s r1) j = true :=
+  Blue.ListFree.prepend_lock_freedom h t r hbusy hsteps
+
+/-- every prepend finishes: at most 5 own steps per successful prepend of another thread, plus 5 -/
+theorem all_prepends_finish {D : Type} {s : Blue.ListFree.St D} (h : Inv s) (t : Nat) (r : List Nat)
+    (hbusy : Blue.ListFree.pendingAlong t s r = true) : r.count t ≤ 5 * (prependsByOthers t s r + 1) :=
+  Blue.ListFree.all_prepends_finish h t r hbusy
+
+/-- a failed CAS on the head means another prepend succeeded since the load (no invariant needed:
+    the head is written by nothing but a successful CAS) -/
+theorem prepend_cas_failure_means_progress {D : Type} (t n : Nat) (hd : Option Nat) (r : List Nat)
+    (s : Blue.ListFree.St D) (hwait : Blue.SkipProgress.along Blue.ListFree.step (Blue.ListFree.casWait t n hd) s r)
+    (hfresh : s.head = hd) (hfail : (Blue.ListFree.run s r).head ≠ hd) :
+    ∃ r1 i r2, r = r1 ++ i :: r2 ∧ i ≠ t ∧ headCas (Blue.ListFree.run s r1) i = true :=
+  Blue.ListFree.prepend_cas_failure_means_progress t n hd r s hwait hfresh hfail
+
+/-- non-vacuity: threads 0 and 1 prepend 7 and 8.  In `lS` thread 0 has allocated node 0 and loaded
+    the empty head (bound 2: store, CAS).  It stores; thread 1 allocates, loads, stores and its CAS
+    succeeds; thread 0's CAS fails, it loads and stores again: 4 own steps > 2, still pending.  One
+    more step and both are in the list. -/
+def lEvs : List (Ev Nat) := [.call 0 7, .call 1 8, .step 0, .step 0]
+def lS : Blue.ListFree.St Nat := lEvs.foldl Blue.ListFree.apply Blue.ListFree.init
+theorem lS_inv : Inv lS := inv_run lEvs
+def lRun : List Nat := [0, 1, 1, 1, 1]
+
+example :
+    prependBound lS 0 = 2 ∧ Blue.ListFree.pendingAlong 0 lS (lRun ++ [0, 0, 0]) = true ∧
+      (lRun ++ [0, 0, 0]).count 0 = 4 ∧ prependsByOthers 0 lS (lRun ++ [0, 0, 0]) = 1 ∧
+      lS.head = none ∧ (Blue.ListFree.run lS lRun).head = some 1 ∧
+      headCas (Blue.ListFree.run lS [0, 1, 1, 1]) 1 = true ∧
+      (Blue.ListFree.run lS (lRun ++ [0, 0, 0, 0])).pushed = [7, 8] ∧
+      Blue.ListFree.pending ((Blue.ListFree.run lS (lRun ++ [0, 0, 0, 0])).pcs 0) = false := by
+  decide
+
+example : ∃ r1 j r2, lRun ++ [0, 0, 0] = r1 ++ j :: r2 ∧ j ≠ 0 ∧ headCas (Blue.ListFree.run lS r1) j = true :=
+  prepend_lock_freedom lS_inv 0 (lRun ++ [0, 0, 0]) (by decide) (by decide)
+
+example : ∃ r1 i r2, lRun = r1 ++ i :: r2 ∧ i ≠ 0 ∧ headCas (Blue.ListFree.run lS r1) i = true :=
+  prepend_cas_failure_means_progress 0 0 none lRun lS
+    (by refine ⟨?_, ?_, ?_, ?_, ?_, ?_⟩ <;> first | exact Or.inl rfl | exact Or.inr rfl) rfl (by decide)
+
+end listprogress
+-- END SkipProgress
+
 end Blue.Props.C17
 
 #print axioms Blue.Props.C17.upper_levels_are_subchains
@@ -455,3 +690,16 @@ end Blue.Props.C17
 #print axioms Blue.Props.C17.iterator_keeps_nodes_alive
 #print axioms Blue.Props.C17.nodes_released_with_last_holder
 #print axioms Blue.ConstsTie.skipfree_default_max_height
+#print axioms Blue.Props.C17.search_terminates_without_interference
+#print axioms Blue.Props.C17.search_lock_freedom
+#print axioms Blue.Props.C17.all_searches_finish
+#print axioms Blue.Props.C17.cas_failure_means_progress
+#print axioms Blue.Props.C17.cas_fails_iff
+#print axioms Blue.Props.C17.adv_load_fresh
+#print axioms Blue.Props.C17.operation_terminates_without_interference
+#print axioms Blue.Props.C17.lock_freedom
+#print axioms Blue.Props.C17.all_operations_finish
+#print axioms Blue.Props.C17.prepend_terminates_without_interference
+#print axioms Blue.Props.C17.prepend_lock_freedom
+#print axioms Blue.Props.C17.all_prepends_finish
+#print axioms Blue.Props.C17.prepend_cas_failure_means_progress
